@@ -88,8 +88,8 @@ def run(spec, pid, tier, seed, replay=None):
         try:
             req, resp = core.pipeline("%s.%s" % (pid, g), [core.TGH, g, "--tier", tier, "--seed", str(seed)])
         except core.HarnessAbort as e:
-            if not spec.get("abort_is_violation"):
-                raise
+            # the real code took the whole process down on an input of this stream (abort, stack overflow, allocation
+            # failure): whatever the property says about the result, there is none
             p = core.write_replay(pid, {"op": e.case.get("op"), "in": e.case.get("in"), "process_exit": e.rc,
                                         "what": "the process running the real code died on this input (abort, stack overflow or allocation failure)",
                                         "seed": seed, "tier": tier, "stream": g})
